@@ -248,21 +248,13 @@ fn derive_copy_shape(def: &CopyDef, symbol_table: &mut BTreeMap<Rc<str>, Shape>)
             def.pos.clone(),
             format!("Not a Copyable type {}", base_shape.type_name()),
         ),
-        // This is an interesting one. Do we assume tuple or module here?
-        Shape::Hole(pi) => Shape::Narrowed(NarrowedShape::new_with_pos(
-            vec![
-                Shape::Tuple(PositionedItem::new(vec![], pi.pos.clone())),
-                Shape::Module(ModuleShape {
-                    items: vec![],
-                    ret: Box::new(Shape::Narrowed(NarrowedShape::new_with_pos(
-                        vec![],
-                        pi.pos.clone(),
-                    ))),
-                }),
-                Shape::Import(ImportShape::Unresolved(pi.clone())),
-            ],
-            pi.pos.clone(),
-        )),
+        // We do not know what is being copied: a tuple, a module or an import.
+        // Neither do we know the fields of the result, so anything may be
+        // selected from it.
+        Shape::Hole(pi) => Shape::Narrowed(NarrowedShape {
+            pos: pi.pos.clone(),
+            types: NarrowingShape::Any,
+        }),
         Shape::Narrowed(NarrowedShape {
             pos: _,
             types: NarrowingShape::Any,
